@@ -41,7 +41,7 @@ class _TState:
     __slots__ = (
         'name', 'thread', 'go', 'enabled', 'blocked_on', 'finished', 'started',
         'wake_at', 'interrupt', 'prio', 'exc', 'steps', 'gate_step', 'daemonic',
-        'idle_ok',
+        'idle_ok', 'noint',
     )
 
     def __init__(self, name):
@@ -60,6 +60,7 @@ class _TState:
         self.gate_step = None    # not schedulable before this global step
         self.daemonic = False    # does not count for termination/deadlock
         self.idle_ok = False     # blocked in a state that is fine to end in
+        self.noint = False       # inside a wait that an interrupt cannot end
 
 
 class Chooser:
@@ -305,7 +306,9 @@ class Scheduler:
             if st.gate_step is not None and self.step < st.gate_step:
                 continue
             if st.enabled is not None:
-                if st.interrupt is not None:
+                # an interrupt posted to a thread inside a non-interruptible wait
+                # (a thread join, a lock) stays pending until its next interruptible wait
+                if st.interrupt is not None and not st.noint:
                     out.append(n)
                     continue
                 if not st.enabled():
@@ -442,6 +445,7 @@ class Scheduler:
         me.enabled = enabled
         me.blocked_on = on
         me.idle_ok = idle_ok
+        me.noint = not interruptible
         saved = None
         if not interruptible:
             saved, me.interrupt = me.interrupt, None
@@ -458,7 +462,8 @@ class Scheduler:
             me.enabled = None
             me.blocked_on = None
             me.idle_ok = False
-            if not interruptible and saved is not None:
+            me.noint = False
+            if not interruptible and saved is not None and me.interrupt is None:
                 me.interrupt = saved
 
     def sleep(self, duration):
